@@ -33,18 +33,39 @@ package elasticsearch
 //@     pure
 
 // appendIndexName: what is spliced between the quotes of "_index" must be a
-// JSON string body.  The event's own field value is appended raw: KNOWN FINDING
-// (a value with a quote, backslash or control character breaks the action line).
+// JSON string body.  The event's own field value goes through appendEscaped: every
+// appended byte is >= 0x20, and every appended quote is directly preceded by an
+// appended backslash (the escape pair is appended as a unit), so a value cannot close
+// the string or break the action line.  (Full escape correctness - backslash parity -
+// is not stated; invalid UTF-8 passes through.)
+
+//@ func appendEscaped
+//@   ensures len(result) >= len(out) + len(s)
+//@   ensures forall k :: len(out) <= k && k < len(result) ==> result[k] >= 32
+//@   ensures forall k :: len(out) <= k && k < len(result) && result[k] == '"' ==> k > len(out) && result[k - 1] == '\\'
+//@   ensures forall k :: 0 <= k && k < len(out) ==> result[k] == old(out[k])
+//@   loop 1 invariant 0 <= i && i <= len(s) && len(out) >= old(len(out)) + i
+//@   loop 1 invariant forall k :: old(len(out)) <= k && k < len(out) ==> out[k] >= 32
+//@   loop 1 invariant forall k :: old(len(out)) <= k && k < len(out) && out[k] == '"' ==> k > old(len(out)) && out[k - 1] == '\\'
+//@   loop 1 invariant forall k :: 0 <= k && k < old(len(out)) ==> out[k] == old(out[k])
+
+// appendIndexName: every value read from the event (AsString) reaches the buffer
+// through appendEscaped, once (ghost counters); nothing is spliced raw.
 
 //@ func (*Plugin).appendIndexName
 //@   option allow-exit yes
-//@   ensures len(result) >= len(outBuf)
-//@   loop 1 invariant 0 <= replacements && len(outBuf) >= old(len(outBuf))
-//@   assert at "outBuf = append(outBuf, value...)" nochr(value, '"') && nochr(value, '\\') && allchr(value, 32, 255)
+//@   ghost nas int = 0
+//@   ghost nesc int = 0
+//@   ensures len(result) >= len(outBuf) && nas == nesc
+//@   loop 1 invariant 0 <= replacements && len(outBuf) >= old(len(outBuf)) && nas == nesc
 //@   callee Dig(path) (n)
 //@     pure
 //@   callee AsString() (s)
 //@     pure
+//@     set nas := nas + 1
+//@   callee appendEscaped(o, v) (r)
+//@     requires nas == nesc + 1
+//@     set nesc := nesc + 1
 //@   callee StringToByteUnsafe(s)
 //@     pure
 
